@@ -3,10 +3,11 @@ import json
 import vlib, gen, impl
 from props.c01 import VERSIONS, excluded
 
-MODULES = ['Hl7.Props.C08']
+MODULES = ['Hl7.Props.C08', 'Hl7.Props.C08Enc']
 THEOREMS = ['Hl7.Msg.C08_order', 'Hl7.Msg.C03_flat_keeps_all', 'Hl7.Msg.C08_deterministic', 'Hl7.Msg.place_flat', 'Hl7.Msg.finish_flat',
             'Hl7.Msg.foldl_place_sublist', 'Hl7.Msg.C03_witness_drop', 'Hl7.Msg.C08_sound', 'Hl7.Msg.place_ok', 'Hl7.Msg.findInRows_sound',
-            'Hl7.Msg.finish_ok']
+            'Hl7.Msg.finish_ok', 'Hl7.Msg.parseSegments_ne', 'Hl7.Msg.encKids_flat', 'Hl7.Msg.C08_on_equals_off',
+            'Hl7.Msg.C08_on_differs_only_if_dropped']
 
 
 def parse_tree(s):
